@@ -114,7 +114,20 @@ func (s *state) removeTorrent(h core.InfoHash, err error) {
 		if err := s.sched.torrentArchive.DeleteTorrent(ctrl.dispatcher.Digest()); err != nil {
 			s.sched.log().Errorf("Error deleting torrent from archive: %s", err)
 		}
+	} else {
+		// The dispatcher reports completion asynchronously, so a complete torrent
+		// may still have clients waiting for its dispatcherCompleteEvent. Once the
+		// control is gone that event can no longer reach them, so they must be
+		// released here or their Download calls never return. An idle timeout
+		// leaves the blob in the cache, i.e. the download succeeded.
+		if err == ErrTorrentTimeout {
+			err = nil
+		}
+		for _, errc := range ctrl.errors {
+			errc <- err
+		}
 	}
+	ctrl.errors = nil
 	delete(s.torrentControls, h)
 }
 
